@@ -164,6 +164,45 @@ theorem placeholder_in_type_test_counterexample :
     ∃ a, NeedsHint a ∧ phase0 .placeholderInType a true false = .synthesisedFinal :=
   ⟨.matchE [.simple, .call], .matchArm (c := .call) (by simp) .call, by decide⟩
 
+/-! ## hint propagation through if / else-if / else -/
+
+/-- **`wrap_keeps_hints`**: with the else part checked against the type of the then-block, wrapping
+(or unwrapping) any continuation of an if / else-if chain in a block — `else if c {…}` ⇄
+`else { if c {…} }`, at any position, any number of times — changes neither the hint any branch
+receives nor the resulting type (for every outer hint, every typing function of the branches). -/
+theorem wrap_keeps_hints {β τ : Type} (ty : β → Option τ → τ) (h : Option τ) (t : IfTree β) :
+    hints .firstBranch ty h t = hints .firstBranch ty h t.strip := by
+  induction t generalizing h with
+  | blk b => rfl
+  | wrapped t ih => simp only [hints, IfTree.strip]; exact ih h
+  | ite b els ih => simp only [hints, IfTree.strip, ih]
+
+/-- the same about the code as it stands (rule read from the source) -/
+theorem wrap_keeps_hints_code {β τ : Type} (ty : β → Option τ → τ) (h : Option τ) (t : IfTree β) :
+    hints Generated.elseIfHint ty h t = hints Generated.elseIfHint ty h t.strip :=
+  wrap_keeps_hints ty h t
+
+/-- **`annotate_keeps_later_hints`**: making the inferred type `T` of an if/else explicit as the
+outer hint (annotated `let`) changes no hint of a later branch and not the result, provided the
+then-block checked against its own inferred type keeps that type. -/
+theorem annotate_keeps_later_hints {β τ : Type} (ty : β → Option τ → τ) (b : β) (els : IfTree β)
+    (hstable : ty b (some (ty b none)) = ty b none) :
+    (hints .firstBranch ty (some (ty b none)) (.ite b els)).2 = (hints .firstBranch ty none (.ite b els)).2 ∧
+    (hints .firstBranch ty (some (ty b none)) (.ite b els)).1.tail =
+      (hints .firstBranch ty none (.ite b els)).1.tail := by
+  simp only [hints, hstable, List.tail_cons, and_self]
+
+/-- fault class 3 (seed C13c): handing the `else if` continuation the hint of the *enclosing*
+if/else makes block-wrapping observable: in a position without outer hint the second branch gets no
+hint, whereas the wrapped form `else { if … }` gives it the first branch's type. -/
+theorem enclosing_hint_rule_counterexample :
+    ∃ (ty : Nat → Option Nat → Nat) (t : IfTree Nat),
+      hints .enclosing ty none t ≠ hints .enclosing ty none t.strip :=
+  ⟨fun b h => h.getD b, .ite 1 (.wrapped (.ite 2 (.blk 3))), by decide⟩
+
+example : (hints .firstBranch (fun b h => h.getD b) none (.ite 1 (.ite 2 (.blk 3)))).1
+    = [(1, none), (2, some 1), (3, some 1)] := by decide
+
 example : withoutHint (.lambda [true, true] (.block (some .simple))) = true := by decide
 example : phase0 Generated.recheckTest (.lambda [true, false] .simple) true true = .recheckedWithHint := by decide
 
